@@ -17,6 +17,9 @@ pub struct PendingPacket {
     last_fragment_id: u16,
 
     ack_flags: Box<[u64]>,
+
+    // The only flush during which transmission of a TimeSensitive packet may begin
+    time_sensitive_flush_id: Option<u32>,
 }
 
 impl PendingPacket {
@@ -38,7 +41,32 @@ impl PendingPacket {
             last_fragment_id,
 
             ack_flags: vec![0u64; (num_fragments + 63)/64].into_boxed_slice(),
+
+            time_sensitive_flush_id: None,
         }
+    }
+
+    pub fn set_time_sensitive(&mut self, flush_id: u32) {
+        self.time_sensitive_flush_id = Some(flush_id);
+    }
+
+    // Returns true if this is a TimeSensitive packet whose transmission may no longer begin
+    pub fn is_stale(&self, flush_id: u32) -> bool {
+        match self.time_sensitive_flush_id {
+            Some(id) => id != flush_id,
+            None => false,
+        }
+    }
+
+    // Gives up on a packet whose transmission has not begun: its data is released and its
+    // fragments are marked so that they are skipped. Returns the size of the discarded data.
+    pub fn discard(&mut self) -> usize {
+        let size = self.data.len();
+        self.data = Box::new([]);
+        for flags in self.ack_flags.iter_mut() {
+            *flags = u64::MAX;
+        }
+        return size;
     }
 
     #[cfg(test)]
